@@ -5,7 +5,9 @@ import (
 	"fmt"
 	"strconv"
 	"strings"
+	"sync"
 	"time"
+	_ "time/tzdata"
 
 	"github.com/free5gc/nas/nasConvert"
 	"github.com/free5gc/nas/nasType"
@@ -93,11 +95,11 @@ func unesc(s string) string {
 }
 
 func parseUtc(a []string) (y, mo, d, h, mi, s, off int, ok bool) {
-	if len(a) != 7 {
+	if len(a) != 7 && len(a) != 8 {
 		return
 	}
 	v := make([]int, 7)
-	for i := range a {
+	for i := range a[:7] {
 		x, err := strconv.Atoi(a[i])
 		if err != nil {
 			return
@@ -113,9 +115,40 @@ func opUtc(a []string) string {
 	if !ok {
 		return "bad-op"
 	}
-	t := time.Date(y, time.Month(mo), d, h, mi, s, 0, time.FixedZone("x", off))
+	loc := time.FixedZone("x", off)
+	if len(a) == 8 {
+		// a named zone: one location object per name for the whole process, as an application holding `time.Local` or the
+		// result of one LoadLocation call would pass it
+		loc = sharedLoc(a[7])
+		if loc == nil {
+			return "bad-op"
+		}
+	}
+	t := time.Date(y, time.Month(mo), d, h, mi, s, 0, loc)
+	if _, o := t.Zone(); o != off {
+		return "bad-op"
+	}
 	r := nasConvert.EncodeUniversalTimeAndLocalTimeZoneToNas(t)
 	return "ok " + hexs(r.Octet[:])
+}
+
+var (
+	locMu  sync.Mutex
+	locMap = map[string]*time.Location{}
+)
+
+func sharedLoc(name string) *time.Location {
+	locMu.Lock()
+	defer locMu.Unlock()
+	if l, ok := locMap[name]; ok {
+		return l
+	}
+	l, err := time.LoadLocation(name)
+	if err != nil {
+		l = nil
+	}
+	locMap[name] = l
+	return l
 }
 
 // ---- independent spec decoders ----
@@ -270,7 +303,16 @@ func oracleC17(op string, a []string) string {
 		if !ok || y < 2000 || y > 2099 || off%900 != 0 || off > 79*900 || off < -79*900 {
 			return skip
 		}
-		t := time.Date(y, time.Month(mo), d, h, mi, s, 0, time.FixedZone("x", off))
+		loc := time.FixedZone("x", off)
+		if len(a) == 8 {
+			if loc = sharedLoc(a[7]); loc == nil {
+				return skip
+			}
+		}
+		t := time.Date(y, time.Month(mo), d, h, mi, s, 0, loc)
+		if _, o := t.Zone(); o != off {
+			return skip
+		}
 		if t.Year() != y { // normalised out of the century
 			return skip
 		}
@@ -391,6 +433,20 @@ func genConv17(g *Gen, w *bufio.Writer) {
 	}
 	for i := 0; i < g.N; i++ {
 		fmt.Fprintf(w, "utc %d %d %d %d %d %d %d\n", 2000+g.Intn(100), 1+g.Intn(12), 1+g.Intn(28), g.Intn(24), g.Intn(60), g.Intn(60), (g.Intn(159)-79)*900)
+	}
+	// named zones with daylight saving, winter and summer instants alternating through one shared location object per zone
+	// (whatever the encoder derives from the location must follow the instant)
+	for _, zn := range []string{"Europe/Paris", "America/New_York", "Australia/Sydney", "Asia/Kolkata", "America/St_Johns", "Pacific/Chatham"} {
+		loc := sharedLoc(zn)
+		if loc == nil {
+			continue
+		}
+		for k := 0; k < 6; k++ {
+			y, mo := 2001+g.Intn(98), []int{1, 7}[k%2]
+			t := time.Date(y, time.Month(mo), 1+g.Intn(28), 12, g.Intn(60), g.Intn(60), 0, loc)
+			_, off := t.Zone()
+			fmt.Fprintf(w, "utc %d %d %d %d %d %d %d %s\n", t.Year(), int(t.Month()), t.Day(), t.Hour(), t.Minute(), t.Second(), off, zn)
+		}
 	}
 	// network names: every length 0..64 (and a few longer), both kinds
 	for n := 0; n <= 70; n++ {
